@@ -27,8 +27,18 @@ struct other_error : virtual policy::error_handler {
     static void error(const error_type&) { b_handler_calls++; }
 };
 
+#if KIND == 4
+// facets with NON-DEFAULT extra template arguments: they must be re-bound too
+#include <map>
+using custom_map = std::map<type_id, const std::uintptr_t*>;
+struct provider { static void default_error_handler(const error_type&) {} };
+struct A : policy::basic_policy<A, sym_rtti, policy::vptr_map<A, custom_map>, policy::vectored_error<A, provider>> {};
+struct B : A::rebind<B> {};
+#else
 struct A : policy::basic_policy<A, sym_rtti, policy::vptr_vector<A>, policy::basic_indirect_vptr<A>, policy::backward_compatible_error_handler<A>> {};
-#if KIND == 1
+#endif
+#if KIND == 4
+#elif KIND == 1
 struct B : A::rebind<B> {};
 #elif KIND == 2
 struct B : A::rebind<B>::replace<policy::error_handler, other_error> {};
@@ -69,7 +79,12 @@ extern "C" void cbmc_main() {
     // distinct objects behind corresponding statics of A and B
     verif_assert((void*)&A::classes != (void*)&B::classes && (void*)&A::methods != (void*)&B::methods, 1);
     verif_assert((void*)&A::dispatch_data != (void*)&B::dispatch_data, 2);
+#if KIND == 4
+    verif_assert((void*)&A::vptrs != (void*)&B::vptrs, 3);
+    verif_assert((void*)&A::error != (void*)&B::error, 6);
+#else
     verif_assert((void*)&A::vptrs != (void*)&B::vptrs && (void*)&A::indirect_vptrs != (void*)&B::indirect_vptrs, 3);
+#endif
     verif_assert((void*)&A::static_vptr<Obj> != (void*)&B::static_vptr<Obj>, 4);
     verif_assert((void*)&MA::fn != (void*)&MB::fn && (void*)MA::fn.slots_strides != (void*)MB::fn.slots_strides, 5);
 #if KIND == 1
@@ -86,11 +101,17 @@ extern "C" void cbmc_main() {
     for (std::size_t i = 0; i < DDCAP; i++) dd[i] = i < dd_n ? A::dispatch_data[i] : 0;
     std::size_t vp_n = A::vptrs.size();
     const std::uintptr_t* vps[VPCAP]; const std::uintptr_t* const* ivps[VPCAP];
+#if KIND == 4
+    for (std::size_t i = 0; i < VPCAP; i++) { vps[i] = (i >= 1 && i <= NC) ? A::vptrs.find(i)->second : nullptr; ivps[i] = nullptr; }
+#else
     for (std::size_t i = 0; i < VPCAP; i++) { vps[i] = i < vp_n ? A::vptrs[i] : nullptr; ivps[i] = i < A::indirect_vptrs.size() ? A::indirect_vptrs[i] : nullptr; }
+#endif
     std::uintptr_t* sv0[NC]; for (int i = 0; i < NC; i++) sv0[i] = sva[i];
     std::size_t ss0[3] = {MA::fn.slots_strides[0], MA::fn.slots_strides[1], MA::fn.slots_strides[2]};
     void* n0[2] = {na[0], na[1]};
+#if KIND != 4
     auto call_error_a = A::call_error;
+#endif
     std::size_t a_classes = A::classes.size(), a_methods = A::methods.size(), a_specs = MA::fn.specs.size();
     // symbolic call in A, before
     Obj x{verif_range(1, 3)}, y{verif_range(1, 3)};
@@ -108,6 +129,8 @@ extern "C" void cbmc_main() {
 #if KIND == 1
     B::error = handler_b;
     B::call_error = call_error_b;
+#elif KIND == 4
+    B::error = handler_b;
 #endif
     // B dispatches with its own definitions
     auto pfb = MB::fn.resolve(x, y);
@@ -117,13 +140,19 @@ extern "C" void cbmc_main() {
     verif_assert(MA::fn.resolve(x, y) == before, 10);
     bool same = A::dispatch_data.size() == dd_n && A::vptrs.size() == vp_n;
     for (std::size_t i = 0; i < DDCAP; i++) if (i < dd_n) same = same && A::dispatch_data[i] == dd[i];
+#if KIND == 4
+    for (std::size_t i = 1; i <= NC; i++) same = same && A::vptrs.find(i)->second == vps[i];
+#else
     for (std::size_t i = 0; i < VPCAP; i++) if (i < vp_n) same = same && A::vptrs[i] == vps[i] && A::indirect_vptrs[i] == ivps[i];
+#endif
     for (int i = 0; i < NC; i++) same = same && sva[i] == sv0[i];
     same = same && MA::fn.slots_strides[0] == ss0[0] && MA::fn.slots_strides[1] == ss0[1] && MA::fn.slots_strides[2] == ss0[2];
     same = same && na[0] == n0[0] && na[1] == n0[1];
     verif_assert(same, 11);
     verif_assert(A::classes.size() == a_classes && A::methods.size() == a_methods && MA::fn.specs.size() == a_specs, 12);
+#if KIND != 4
     verif_assert(A::call_error == call_error_a, 13);
+#endif
     // A's handler is still A's
     int bcalls = b_handler_calls;
     A::error(error_type(unknown_class_error()));
